@@ -1,18 +1,60 @@
 """Per-property configuration of ./check: Lean modules, obligation list (theorems whose axioms are
-audited), translator constants the property depends on, correspondence streams."""
+audited), translator constants the property depends on, correspondence streams.
+
+`claimed`: the property has its theorem(s) and is listed under MANIFEST.checks; the others run the
+same machinery (./check Cxx works) but are not claimed until their theorem is proved."""
 
 COMMON_ASSUME = [
     "the hand-written Lean model mirrors the Rust functions in its cone; agreement is checked on the cases of this run only",
 ]
+TIE = "SstModel.Props.ConstsTie"
+TIE_T = ["Sst.ConstsTie.magic_eq", "Sst.ConstsTie.footer_lengths", "Sst.ConstsTie.trailer_length",
+         "Sst.ConstsTie.mask_consts", "Sst.ConstsTie.compression_tags", "Sst.ConstsTie.crc_check_value",
+         "Sst.ConstsTie.mask_zero"]
+BLOOM_T = ["Sst.ConstsTie.filter_base", "Sst.ConstsTie.bloom_consts", "Sst.ConstsTie.default_bloom_k"]
+
+
+def P(mods, thms, streams, claimed=False, level="proof", consts=(), assume=(), explanation="", partial=""):
+    return {"lean_modules": mods, "theorems": thms, "streams": streams, "claimed": claimed, "level": level,
+            "consts": list(consts), "assumptions": COMMON_ASSUME + list(assume), "explanation": explanation,
+            "partial": partial}
+
 
 PROPS = {
-    "C17": {
-        "lean_modules": ["SstModel.Props.C17"],
-        "theorems": ["Sst.C17_sep", "Sst.C17_succ", "Sst.C17_succ_strict", "Sst.C17_bracket",
-                     "Sst.model_order_is_lex", "Sst.model_le_is_lex"],
-        "consts": [],
-        "streams": ["S1 cmp: DefaultCmp::{cmp,find_shortest_sep,find_short_succ} vs Model.Cmp"],
-        "level": "proof",
-        "assumptions": COMMON_ASSUME + ["<[u8] as Ord>::cmp is lexicographic (std; modelled by cmpBytes and sampled by S1)"],
-    },
+    "C01": P([TIE], TIE_T, ["S2", "S3", "S4", "S7", "S8", "S9", "S10"]),
+    "C02": P([TIE], TIE_T + BLOOM_T, ["S1", "S2", "S3", "S4", "S5", "S6", "S7", "S8", "S9", "S10"]),
+    "C03": P([TIE], TIE_T, ["S2", "S3", "S4", "S7", "S8", "S9", "S10"]),
+    "C04": P([TIE], TIE_T, ["S2", "S3", "S4", "S7", "S8", "S9", "S10"]),
+    "C05": P([TIE], TIE_T + BLOOM_T, ["S1-S7", "S9"]),
+    "C06": P([TIE], TIE_T, ["S2", "S4", "S10"]),
+    "C07": P([TIE], TIE_T, ["S2", "S3", "S10"]),
+    "C08": P([TIE], TIE_T, ["S2", "S6", "S7", "S8", "S10"]),
+    "C09": P(["SstModel.Props.C09", TIE],
+             ["Sst.C09_bloom", "Sst.C09_filter_block", "Sst.C09_bloom_filter_block", "Sst.C09_nofilter",
+              "Sst.C09_firstbyte"] + BLOOM_T,
+             ["S2 codec (fixed32)", "S5 bloom: BloomPolicy hash / k / create_filter / key_may_match vs Model.Bloom",
+              "S6 filterblock: FilterBlockBuilder/Reader vs model, members judged"],
+             claimed=True, consts=["filterBaseLog2", "bloomSeed", "bloomM", "bloomR", "bloomKNum", "bloomKMin", "bloomKMax", "bloomMinBits"],
+             assume=["f32 product bits_per_key*0.69 is modelled as floor(bits*69/100); compared with the crate for bits 0..64 and samples (S5)",
+                     "theorem hypotheses: bit array < 512 MiB (FitsU32), filter block < 2^32 (resp. 2^29) bytes"]),
+    "C10": P([TIE], TIE_T, ["S10", "S11"]),
+    "C11": P([TIE], [], ["S11"]),
+    "C12": P([TIE], TIE_T, ["S10", "S13"]),
+    "C13": P([TIE], TIE_T, ["S9"]),
+    "C14": P([TIE], TIE_T, ["S10"]),
+    "C15": P([TIE], TIE_T, ["S9", "S10"]),
+    "C16": P([TIE], [], ["S7", "S9"]),
+    "C17": P(["SstModel.Props.C17"],
+             ["Sst.C17_sep", "Sst.C17_succ", "Sst.C17_succ_strict", "Sst.C17_bracket",
+              "Sst.model_order_is_lex", "Sst.model_le_is_lex"],
+             ["S1 cmp: DefaultCmp::{cmp,find_shortest_sep,find_short_succ} vs Model.Cmp"], claimed=True,
+             assume=["<[u8] as Ord>::cmp is lexicographic (std; modelled by cmpBytes and sampled by S1)"]),
+    "C18": P([TIE], TIE_T + BLOOM_T, ["S5", "S6", "S10"]),
+    "C19": P([TIE], TIE_T, ["S8", "S10"]),
+    "C20": P(["SstModel.Props.C20", TIE],
+             ["Sst.C20_display", "Sst.C20_conversions", "Sst.C20_names_distinct", "Sst.C20_all_codes",
+              "Sst.C20_io_table", "Sst.C20_io_default", "Sst.ConstsTie.display_writes_err"],
+             ["S12 status: Status::new / Display / to_string / dyn Error / From<io::Error|snap::Error|PoisonError> in a child process with a 256 KiB stack vs Model.Status"],
+             claimed=True, consts=["statusCodes", "ioErrorTable", "ioErrorDefault", "displayWritesErr"],
+             assume=["Rust's format!(\"{:?}\") of a field-less enum variant prints the variant name; String formatting of std"]),
 }
